@@ -341,3 +341,23 @@ func BundleMax(xs []int) int {
 	out := s
 	return out.idx
 }
+
+// RetestedSwitch: `case nf && ctl:` followed by `case nf:` — in the second
+// arm ctl is known false (nf was true both times, so the first arm failed on
+// ctl). The marker call in the second arm needs "ctl == false or ok(Create)".
+func RetestedSwitch(a api, err error, ctl bool) error {
+	nf := isBenign(err)
+	switch {
+	case nf && ctl:
+		if err := a.Create("x"); err != nil {
+			return err
+		}
+	case nf:
+		_ = a.Delete("second-arm")
+	default:
+		if err := a.Write("x"); err != nil {
+			return err
+		}
+	}
+	return nil
+}
